@@ -15,6 +15,13 @@ CLAIMED = {
          "cariage_return leaves exactly the closed-form position of the property statement and changes nothing else (whole-state frame). "
          "The functions are extracted verbatim from /repo/src/screen.rs on every run and verified by Verus against contracts woven in.",
     design="5 C05", technique="Verus contracts (requires/ensures + whole-state frame) on the verbatim function bodies"),
+ 'C07': dict(
+    text="Deductive proof that erase_characters, erase_in_line and erase_in_display leave, for every cell (y,x) of the grid, exactly "
+         "`cursor rendition + space` inside the documented range and the previous observable cell outside it (whole-grid postcondition "
+         "over the abstract view obs(y,x), so absent and materialised cells are treated alike), change nothing but cells and dirty rows, "
+         "ignore unsupported selectors, and are not restricted by margins/DECOM (they do not occur in the range predicates). All "
+         "geometries <= 65535^2, all cursor positions incl. pending wrap, all selectors/counts in {absent} U [0,9999].",
+    design="5 C07", technique="Verus contracts + loop invariants on the verbatim bodies (one type-checked Box<dyn>->Range rewrite in erase_in_line)"),
 }
 NA = {}
 checks = []
